@@ -184,6 +184,9 @@ def _run_structural(ctx):
     rule_name_selection(ctx, r2, "the targets of `gwf clean PATTERN...`")
     rule_flag_default(ctx, r2, "gwf.plugins.clean:clean", "--all", "endpoint outputs would be removed although --all was not given")
     rule_flag_default(ctx, r2, "gwf.plugins.clean:clean", "--force", "cleaning everything would never ask for confirmation")
+    from .shared import rule_targets_argument, rule_calls_bind
+    rule_calls_bind(ctx, r2, ("gwf.plugins.clean",))
+    rule_targets_argument(ctx, r2, "gwf.plugins.clean:clean", "`gwf clean [NAMES]`")
     m_ok = True
     epf = idx.func("gwf.filtering:EndpointFilter.predicate")
     pol = {}
